@@ -151,6 +151,7 @@ pub fn expected(net: &Net, f: &F, ctx: &ExplicitContext, colour: u64) -> StateSe
         ts: &ts,
         props: &props,
         labels: &labels,
+        memo: crate::oracle::Memo::on(),
     }
     .eval_closed(f)
 }
@@ -171,6 +172,7 @@ pub fn expected_many(
             ts: &ts,
             props: &props,
             labels: &labels,
+            memo: crate::oracle::Memo::on(),
         };
         for (i, f) in fs.iter().enumerate() {
             out[i].push(o.eval_closed(f));
